@@ -95,6 +95,11 @@ def oracle_json(doc):
         return []
     if not finite_instance(doc):
         return []
+    # building the graph (normalize + parse) is timed on its own: a divergence there is never one of the listed findings
+    _, berr = timed(lambda: c01.P.parse(copy.deepcopy(doc)))
+    if berr in ("fuel", "timeout"):
+        return [("json-recursion-does-not-terminate:while-building-the-graph",
+                 "parse_json_schema %s on a recursive schema that admits a finite instance" % ("exceeds 10 s" if berr == "timeout" else "raises RecursionError"))]
     err, terr = timed(lambda: json_generate(doc))
     err = terr or err
     if err == "build-fuel":
@@ -121,7 +126,15 @@ def gen_recursive_doc(rng):
     has a base alternative or sits under an array that may be empty"""
     leaf = lambda: rng.choice([{"type": "integer", "minimum": rng.randint(0, 3)}, {"type": "string"}, {"enum": ["a", "b"]}, {"type": "boolean"}, {}])
     tgt = rng.choice(["#", "#/$defs/T", "#/$defs/U"])
-    shape = rng.choice(["optprop", "items", "items0", "prefix", "anyof-base", "mutual", "nested-array", "ref-siblings", "cons", "cons0", "wrapped-ref", "wrapped-ref"])
+    shape = rng.choice(["optprop", "items", "items0", "prefix", "anyof-base", "mutual", "nested-array", "ref-siblings", "cons", "cons0", "wrapped-ref", "wrapped-ref",
+                        "negated-items"])
+    if shape == "negated-items":
+        # the recursion passes through an item (or property) position that stands under one or two negations
+        pos = rng.choice(["items", "items", "prop"])
+        inner = {"not": {"$ref": "#/$defs/n"}} if rng.random() < 0.6 else {"$ref": "#/$defs/n"}
+        holder = {"type": "array", "items": inner} if pos == "items" else {"type": "object", "properties": {"k": inner}}
+        n = {"not": holder} if rng.random() < 0.6 else {"oneOf": [{"type": "null"}, {k: v for k, v in holder.items() if k != "type"}]}
+        return {"$defs": {"n": n}, "$ref": "#/$defs/n"}
     T = {"type": "object", "properties": {"v": leaf()}}
     U = {"type": "array", "items": leaf()}
     if shape == "optprop":
